@@ -38,8 +38,8 @@ RULE = ('one case per generated row = (alternative table, partition, size vector
         '(generated table, model, parameter point) likelihood comparison. A row is non-trivial when the sampler had a '
         'real choice (more than one possible answer) or the row belongs to a fully sampled table whose likelihood is '
         'compared with the full-choice-set model; distinct = distinct (context, chosen, answers, spec) keys. '
-        'Pairs (first answer, second answer) are the full product when <= 36, otherwise a diagonal pairing covering '
-        'every answer of each sampler at least once.')
+        'Within a context the pairs ((chosen, first answer), second answer) are the full product when <= 48, otherwise a '
+        'diagonal pairing covering every (chosen, first answer) and every second answer at least once.')
 ASSUMPTIONS = [
     'the only random source of the generator is pandas.DataFrame.sample called from sampling_of_alternatives.py; the seam '
     'counts its calls, so a bypass (another random source) is reported as a violation, not missed',
@@ -309,6 +309,7 @@ def run_table(t, rec: Rec):
     if t.get('idx'):
         n = len(rows)
         ind_df.index = [10 + 3 * ((i * 7 + 2) % n) for i in range(n)]  # distinct, unsorted, with gaps
+        alts_df.index = [5 + 2 * ((i * 5 + 3) % J) for i in range(J)]    # the table of alternatives likewise
     utility, cvs = build_spec(spec)
     cnl_obj = None
     cnl_ref = None
@@ -341,6 +342,16 @@ def run_table(t, rec: Rec):
             database = gen.sample_and_merge(recycle=False)
         finally:
             uninstall()
+        recycled = None
+        if len(rows) <= 3:
+            # the file written next to the table must give the same table back (no sampler call)
+            stage = 'sample_and_merge(recycle=True)'
+            seam2 = Seam([], by_id)
+            install(seam2)
+            try:
+                recycled = gen.sample_and_merge(recycle=True).data
+            finally:
+                uninstall()
     except Exception as e:
         uninstall()
         for ri in range(len(rows)):
@@ -354,6 +365,20 @@ def run_table(t, rec: Rec):
 
     data = database.data
     cols = list(data.columns)
+    if recycled is not None:
+        same = sorted(recycled.columns) == sorted(cols) and len(recycled) == len(data) and seam2.pos == 0
+        if same:
+            for c_ in cols:
+                if not all(R.close(_fnum(x), _fnum(y), rel=1e-13, ab=1e-15) or (_fnum(x) == _fnum(y))
+                           for x, y in zip(data[c_].tolist(), recycled[c_].tolist())):
+                    same = False
+                    break
+        rec.case(None, (table_key(t), 'recycle', same), outcome=('recycle', same))
+        if not same:
+            viol('recycled-table-differs-from-generated-table', 'recycle',
+                 f'sample_and_merge(recycle=True) right after the generation returns a different table '
+                 f'(columns {sorted(set(cols) ^ set(recycled.columns))} differ, sampler calls {seam2.pos}); {ctx_desc}',
+                 expected=cols, observed=list(recycled.columns))
 
     # ---- sampler requests
     for p in seam.problems:
@@ -642,18 +667,19 @@ def _cleanup():
 
 
 # ----------------------------------------------------------------------------- enumeration of contexts
-PAIR_CAP = 36
+PAIR_CAP = 48
 
 
-def pair_answers(a1s, a2s):
-    """All (first answer, second answer) pairs when few, otherwise a diagonal pairing covering every answer
-    of each sampler at least once."""
+def pair_answers(firsts, a2s):
+    """firsts: every (chosen, first answer) of the context; a2s: every answer of the second sampler (or None).
+    All pairs when few, otherwise a diagonal pairing covering every (chosen, first answer) and every second
+    answer at least once."""
     if a2s is None:
-        return [(a, None) for a in a1s]
-    if len(a1s) * len(a2s) <= PAIR_CAP:
-        return [(a, b) for a in a1s for b in a2s]
-    n = max(len(a1s), len(a2s))
-    return [(a1s[i % len(a1s)], a2s[i % len(a2s)]) for i in range(n)]
+        return [(c, a, None) for c, a in firsts]
+    if len(firsts) * len(a2s) <= PAIR_CAP:
+        return [(c, a, b) for c, a in firsts for b in a2s]
+    n = max(len(firsts), len(a2s))
+    return [firsts[i % len(firsts)] + (a2s[i % len(a2s)],) for i in range(n)]
 
 
 def n_pairs(n1, n2):
@@ -664,17 +690,15 @@ def n_pairs(n1, n2):
 
 def ctx_rows(ctx):
     """Number of generated rows of a context (restricted to ctx['choices'])."""
-    tot = 0
     n2 = R.count_second_answers(ctx['part2'], ctx['k2']) if ctx.get('part2') is not None else None
-    for c in ctx['choices']:
-        tot += n_pairs(R.count_first_answers(ctx['part1'], ctx['k1'], c), n2)
-    return tot
+    n1 = sum(R.count_first_answers(ctx['part1'], ctx['k1'], c) for c in ctx['choices'])
+    return n_pairs(n1, n2)
 
 
 def contexts(tier):
     out = []
     # ---- part A
-    for J in ([4] if tier == 'quick' else [4, 5, 6]):
+    for J in ([4, 5] if tier == 'quick' else [4, 5, 6]):
         ids = IDS[:J]
         parts = R.set_partitions(ids, 3)
         for pi, part in enumerate(parts):
@@ -756,11 +780,10 @@ def tables_of(ctx, tier):
     rows = []
     u = ctx.get('n', 0)
     a2s = R.second_answers(ctx['part2'], ctx['k2']) if ctx.get('part2') is not None else None
-    for c in ctx['choices']:
-        a1s = R.first_answers(ctx['part1'], ctx['k1'], c)
-        for a1, a2 in pair_answers(a1s, a2s):
-            rows.append(dict(c=c, a1=a1, a2=a2, u=u))
-            u += 1
+    firsts = [(c, a1) for c in ctx['choices'] for a1 in R.first_answers(ctx['part1'], ctx['k1'], c)]
+    for c, a1, a2 in pair_answers(firsts, a2s):
+        rows.append(dict(c=c, a1=a1, a2=a2, u=u))
+        u += 1
     sizes = [1, 3]
     i = 0
     ti = 0
